@@ -872,12 +872,23 @@ func (g *Gen) lift(body *Block, t Type, env Env2, variant string) Expr {
 	var args []Expr
 	for _, n := range names {
 		ty, _ := env.typeOf(n)
-		pm := Param{Name: n, Type: ty}
-		if variant == "unannotated" && g.inferable(body, n, ty) {
-			pm.Type = ""
-		}
-		fd.Params = append(fd.Params, pm)
+		fd.Params = append(fd.Params, Param{Name: n, Type: ty})
 		args = append(args, Var{n})
+	}
+	if variant == "unannotated" && len(names) > 0 {
+		// drop every annotation that the documentation promises to be inferable: the parse-time reference
+		// inference (match arms not unified, targets evident) must give the same signature without it
+		full := sigOf(fd)
+		for i := range fd.Params {
+			if !g.inferable(body, fd.Params[i].Name, fd.Params[i].Type) || full == "" {
+				continue
+			}
+			saved := fd.Params[i].Type
+			fd.Params[i].Type = ""
+			if sigOf(fd) != full {
+				fd.Params[i].Type = saved
+			}
+		}
 	}
 	if len(names) == 0 {
 		fd.Params = []Param{{Unit: true}}
@@ -888,6 +899,24 @@ func (g *Gen) lift(body *Block, t Type, env Env2, variant string) Expr {
 	}
 	g.Aux = append(g.Aux, fd)
 	return App{Fn: fn, Args: args}
+}
+
+// FoiText is the text of pkg/pkg_all.foi (set by the checks); without it no annotation is dropped.
+var FoiText string
+
+// sigOf: the reference signature of fd under the parse-time inference mode ("" if it fails or is out of the promises).
+func sigOf(fd FuncDef) string {
+	if FoiText == "" {
+		return ""
+	}
+	in := NewInferer()
+	in.LoadFoi(FoiText)
+	in.NoArmUnify = true
+	ft, err := in.InferFunc(fd)
+	if err != nil || in.ArithUndetermined() {
+		return ""
+	}
+	return GoSig(ft, false)
 }
 
 // inferable: may the annotation of parameter n (of type ty) be dropped?  Only
